@@ -136,6 +136,7 @@ func (t *TempoController) Echo(w http.ResponseWriter, r *http.Request) {
 }
 
 func (t *TempoController) Tags(w http.ResponseWriter, r *http.Request) {
+	defer tamePanic(w, r)
 	internalCtx, err := RunPreRequestPlugins(r)
 	if err != nil {
 		PromError(500, err.Error(), w)
@@ -161,6 +162,7 @@ func (t *TempoController) Tags(w http.ResponseWriter, r *http.Request) {
 }
 
 func (t *TempoController) TagsV2(w http.ResponseWriter, r *http.Request) {
+	defer tamePanic(w, r)
 	var err error
 	internalCtx, err := RunPreRequestPlugins(r)
 	if err != nil {
@@ -226,6 +228,7 @@ func (t *TempoController) TagsV2(w http.ResponseWriter, r *http.Request) {
 }
 
 func (t *TempoController) ValuesV2(w http.ResponseWriter, r *http.Request) {
+	defer tamePanic(w, r)
 	var err error
 	internalCtx, err := RunPreRequestPlugins(r)
 	if err != nil {
@@ -289,6 +292,7 @@ func (t *TempoController) ValuesV2(w http.ResponseWriter, r *http.Request) {
 }
 
 func (t *TempoController) Values(w http.ResponseWriter, r *http.Request) {
+	defer tamePanic(w, r)
 	internalCtx, err := RunPreRequestPlugins(r)
 	if err != nil {
 		PromError(500, err.Error(), w)
@@ -316,6 +320,7 @@ func (t *TempoController) Values(w http.ResponseWriter, r *http.Request) {
 }
 
 func (t *TempoController) Search(w http.ResponseWriter, r *http.Request) {
+	defer tamePanic(w, r)
 	internalCtx, err := RunPreRequestPlugins(r)
 	if err != nil {
 		PromError(500, err.Error(), w)
